@@ -869,7 +869,7 @@ func unmarshalBody(fset *token.FileSet, stmts []ast.Stmt, c *jCmd) []jStmt {
 				body := n.Body.List
 				// WriteAndClose: c.F = [3]types.ULONG{ Uint32(P[offset:offset+4]), … }
 				if len(body) >= 2 {
-					if m3 := regexp.MustCompile(`^c\.(\w+) = \[3\]types\.ULONG\{ types\.ULONG\(binary\.LittleEndian\.Uint32\(rawParametersContent\[offset : offset\+4\]\)\), types\.ULONG\(binary\.LittleEndian\.Uint32\(rawParametersContent\[offset\+4 : offset\+8\]\)\), types\.ULONG\(binary\.LittleEndian\.Uint32\(rawParametersContent\[offset\+8 : offset\+12\]\)\), \}$`).FindStringSubmatch(src(fset, body[1])); m3 != nil {
+					if m3 := regexp.MustCompile(`^c\.(\w+) = \[3\]types\.ULONG\{ ?types\.ULONG\(binary\.LittleEndian\.Uint32\(rawParametersContent\[offset : offset\+4\]\)\), types\.ULONG\(binary\.LittleEndian\.Uint32\(rawParametersContent\[offset\+4 : offset\+8\]\)\), types\.ULONG\(binary\.LittleEndian\.Uint32\(rawParametersContent\[offset\+8 : offset\+12\]\)\),? ?\}$`).FindStringSubmatch(src(fset, body[1])); m3 != nil {
 						g := reGuard.FindStringSubmatch(src(fset, body[0]))
 						if g != nil && len(body) == 3 && src(fset, body[2]) == `offset += 12` {
 							add(jStmt{Op: "ifWordCount", K: int(k), Body: []jStmt{
